@@ -1,7 +1,7 @@
 //vp:property C19
 //vp:pkg ./storage
 //vp:roots ./tsdb/chunkenc ./model/histogram
-//vp:bounds chainSampleIterator (sample-level merge with de-duplication) over k<=3 input iterators with <=2 float samples each (thorough 3), symbolic strictly increasing timestamps in [-2^62, 2^62] per input (equal timestamps across inputs included), values arbitrary bits; drained with Next, or Seek(x) with arbitrary x followed by Next
+//vp:bounds chainSampleIterator (sample-level merge with de-duplication) over k<=3 input iterators with <=2 float samples each (thorough 3), symbolic strictly increasing timestamps in [-2^62, 2^62] per input (equal timestamps across inputs included), values arbitrary bits; drained with Next, or Seek(x) with arbitrary x followed by Next; also with the iterator object reused after a previous series (1..2 samples, partly or fully consumed; next merge over <=2 inputs)
 //vp:assume per input: timestamps strictly increasing and within +-2^62 (never the MinInt64 sentinel)
 package storage
 
@@ -56,8 +56,10 @@ func (l *vpXListIt) AtT() int64  { return l.ss[l.i].t }
 func (l *vpXListIt) AtST() int64 { return 0 }
 func (l *vpXListIt) Err() error  { return nil }
 
-func vpXInputs() ([][]vpXSample, []chunkenc.Iterator) {
-	kHi, nHi := 3, 2
+func vpXInputs() ([][]vpXSample, []chunkenc.Iterator) { return vpXInputsK(3) }
+
+func vpXInputsK(kQuick int) ([][]vpXSample, []chunkenc.Iterator) {
+	kHi, nHi := kQuick, 2
 	if vpThorough() {
 		kHi, nHi = 3, 3
 	}
@@ -152,5 +154,50 @@ func vpH_C19_chain_seek() {
 		}
 	}
 	vpXCheckMerge(ins, out, x, true)
+	vpReach("end")
+}
+
+// The merged iterator object is reused from one series to the next (Series.Iterator(prev)): state left
+// over from the previous series must not leak into the next merge.
+func vpH_C19_chain_reuse() {
+	// previous series: one input with 1..2 samples, fully or partly consumed
+	n0 := vpShape("prev", 1, 2)
+	prev := make([]vpXSample, n0)
+	for j := range prev {
+		prev[j] = vpXSample{t: vpInt64(), v: vpFloat64()}
+		vpAssume(vpAnd(prev[j].t >= -(1<<62), prev[j].t <= 1<<62))
+		if j > 0 {
+			vpAssume(prev[j-1].t < prev[j].t)
+		}
+	}
+	it := ChainSampleIteratorFromIterators(nil, []chunkenc.Iterator{&vpXListIt{ss: prev, i: -1}})
+	steps := vpShape("consumed", 0, n0)
+	for s := 0; s < steps; s++ {
+		it.Next()
+	}
+	ins, its := vpXInputsK(2)
+	it = ChainSampleIteratorFromIterators(it, its)
+	var out []vpXSample
+	var x int64
+	seek := vpShape("seek", 0, 1) == 1
+	if seek {
+		x = vpInt64()
+		if it.Seek(x) == chunkenc.ValFloat {
+			t, v := it.At()
+			out = append(out, vpXSample{t, v})
+		} else {
+			vpXCheckMerge(ins, out, x, true)
+			vpReach("end")
+			return
+		}
+	}
+	for it.Next() == chunkenc.ValFloat {
+		t, v := it.At()
+		out = append(out, vpXSample{t, v})
+		if len(out) > 9 {
+			break
+		}
+	}
+	vpXCheckMerge(ins, out, x, seek)
 	vpReach("end")
 }
